@@ -1,6 +1,7 @@
 package sim
 
 import (
+	"bytes"
 	"fmt"
 	"github.com/bluenviron/mediacommon/v2/pkg/formats/fmp4"
 	"math"
@@ -14,6 +15,8 @@ import (
 //
 //	C02 (mode "init"): the init section fetched after a playlist is never older than the parameters the newest
 //	     segment listed in that playlist was encoded with (the init only ever moves forward, at the cut itself).
+//	C05 (mode "parts"): Low-Latency, mostly Directory storage; every part a playlist lists is fetched at once: status
+//	     200 and the same bytes as before, unless its segment has left the window meanwhile.
 //	C03 (mode "target"): every playlist satisfies TARGETDURATION >= round(EXTINF) for every listed segment, and
 //	     per reader TARGETDURATION never decreases. The user's OnEncodeError callback takes its time (it spins),
 //	     which widens any window around it.
@@ -25,11 +28,17 @@ func scMuxBurst(mode string) Scenario {
 			g.paramChanges = true
 			g.paramChangeDen = Pick(T, 1, 2, 3)
 			g.h26xOnly = true
+		} else if mode == "parts" {
+			g.variants = []string{"ll"}
+			g.forceVideo = T.Chance(1, 2)
 		} else {
 			g.variants = allVariants
 			g.paramChanges = T.Chance(1, 3)
 		}
 		cfg := genMuxCfg(r, g)
+		if mode == "parts" && T.Chance(3, 4) {
+			cfg.disk = true
+		}
 		script := genScript(r, cfg, g)
 		w, err := newMuxWorld(r, cfg, script)
 		if err != nil {
@@ -63,6 +72,12 @@ func scMuxBurst(mode string) Scenario {
 			uri  string
 		}
 		var done atomic.Bool
+		partSeen := make([]map[string][]byte, nReaders)
+		partBad := make([]string, nReaders)
+		partOK := make([]int, nReaders)
+		for i := range partSeen {
+			partSeen[i] = map[string][]byte{}
+		}
 		results := make([][]triple, nReaders)
 		var readers []*Task
 		for i := 0; i < nReaders; i++ {
@@ -92,6 +107,46 @@ func scMuxBurst(mode string) Scenario {
 						continue
 					}
 					tr := triple{pl: pl}
+					if mode == "parts" {
+						// every part the playlist lists (under its last segments and of the open one)
+						type lp struct {
+							uri string
+							msn int
+						}
+						var listed []lp
+						for k, sg := range pl.Segments {
+							for _, p := range sg.Parts {
+								listed = append(listed, lp{stripQuery(p.URI), pl.MediaSequence + k})
+							}
+						}
+						for _, p := range pl.TrailingParts {
+							listed = append(listed, lp{stripQuery(p.URI), pl.MediaSequence + len(pl.Segments)})
+						}
+						for _, p := range listed {
+							pr := w.directGet(p.uri)
+							if pr.effStatus() == 200 && len(pr.body) > 0 {
+								if old, ok := partSeen[i][p.uri]; ok && !bytes.Equal(old, pr.body) && partBad[i] == "" {
+									partBad[i] = fmt.Sprintf("part %s returned %d bytes, earlier %d other bytes", p.uri, len(pr.body), len(old))
+								}
+								partSeen[i][p.uri] = pr.body
+								partOK[i]++
+								continue
+							}
+							// not served: legitimate only if its segment has left the window meanwhile
+							again := w.directGet(lead)
+							if again.effStatus() != 200 {
+								continue
+							}
+							pl2, err := parseMediaPlaylist(again.body)
+							if err != nil {
+								continue
+							}
+							if p.msn >= pl2.MediaSequence && partBad[i] == "" {
+								partBad[i] = fmt.Sprintf("part %s (media sequence %d) was listed, answered status %d with %d bytes, and its segment is still in the window (%d..) afterwards",
+									p.uri, p.msn, pr.effStatus(), len(pr.body), pl2.MediaSequence)
+							}
+						}
+					}
 					if mode == "init" && pl.HasMap {
 						if ir := w.directGet(stripQuery(pl.MapURI)); ir.effStatus() == 200 {
 							tr.init = ir.body
@@ -122,6 +177,15 @@ func scMuxBurst(mode string) Scenario {
 				epochs = append(epochs, cur)
 			}
 			epochOf[u.idx] = len(epochs) - 1
+		}
+		for i := range partBad {
+			if partBad[i] != "" {
+				r.Fail("fetch", "listed-part-under-load", "reader %d: %s", i, partBad[i])
+				break
+			}
+			if partOK[i] > 0 {
+				r.Probe("burst-listed-part-fetched")
+			}
 		}
 		for i, rs := range results {
 			prevTD := -1
